@@ -40,6 +40,9 @@ pub enum BOp {
     Stream { sel: u16, script: Vec<HOp> },
     /// open every listed stream (up to a cap) and run the script on each
     AllStreams { script: Vec<HOp> },
+    /// open the sel-th listed stream; start a walk() and a read_root_storage() iterator, advance
+    /// them k steps, use the handle and a lookup while both iterators are alive, advance again
+    IterWhileStream { sel: u16, k: u8, script: Vec<HOp> },
     /// open a handle, use it, then remove (0) / overwrite (1) the stream or remove its parent
     /// storage recursively (2) while the handle is still open, and keep using the handle
     StaleHandle { sel: u16, pre: Vec<HOp>, how: u8, post: Vec<HOp> },
@@ -60,7 +63,7 @@ impl BOp {
         match self {
             BOp::CreateStream { .. } | BOp::CreateStorage { .. } | BOp::RemoveStream { .. } | BOp::RemoveStorage { .. } | BOp::RemoveStorageAll { .. } | BOp::SetState { .. } | BOp::SetClsid { .. } | BOp::Touch { .. } => true,
             BOp::StaleHandle { .. } => true,
-            BOp::Stream { script, .. } | BOp::AllStreams { script } => script.iter().any(|h| matches!(h, HOp::Write(_) | HOp::WriteAll(_) | HOp::SetLen(_) | HOp::SetLenRel(_))),
+            BOp::Stream { script, .. } | BOp::AllStreams { script } | BOp::IterWhileStream { script, .. } => script.iter().any(|h| matches!(h, HOp::Write(_) | HOp::WriteAll(_) | HOp::SetLen(_) | HOp::SetLenRel(_))),
             _ => false,
         }
     }
@@ -220,6 +223,45 @@ pub fn run_blind(c: &mut Cfb, script: &[BOp], st: &mut BlindStats, trace: &mut V
                         d?;
                     }
                     Err(_) => st.errs += 1,
+                }
+            }
+            BOp::IterWhileStream { sel, k, script } => {
+                let l: Vec<String> = listing(c, 2000)?.into_iter().filter(|x| x.1).map(|x| x.0).collect();
+                if l.is_empty() {
+                    continue;
+                }
+                let p = l[pick(*sel, l.len())].clone();
+                if let Ok(mut s) = guard("open_stream", || c.open_stream(&p))? {
+                    st.streams_opened += 1;
+                    let cr: &Cfb = &*c;
+                    let r = (|| -> Result<(), Fail> {
+                        let mut it = guard("walk", || cr.walk())?;
+                        let mut it2 = guard("read_root_storage", || cr.read_root_storage())?;
+                        for _ in 0..*k {
+                            if guard("iter_next", || it.next().is_none())? {
+                                break;
+                            }
+                        }
+                        guard("iter_next", || it2.next().is_none())?;
+                        run_handle(&mut s, script, st)?;
+                        guard("entry", || cr.entry(&p).is_ok())?;
+                        guard("exists", || cr.exists("/"))?;
+                        for _ in 0..(*k as usize + 3) {
+                            if guard("iter_next", || it.next().is_none())? {
+                                break;
+                            }
+                        }
+                        guard("iter_next", || it2.next().is_none())?;
+                        run_handle(&mut s, &[HOp::Read(10), HOp::SeekCur(0), HOp::Len], st)?;
+                        guard("iter_drop", move || {
+                            drop(it);
+                            drop(it2);
+                        })?;
+                        Ok(())
+                    })();
+                    let d = guard("h_drop", move || drop(s));
+                    r?;
+                    d?;
                 }
             }
             BOp::StaleHandle { sel, pre, how, post } => {
